@@ -101,6 +101,27 @@ SCENARIOS = {
 }
 
 
+def _argument_closure(schema):
+    """(input types, enums) reachable from the arguments of any field of the schema (what custom operations can send)"""
+    inputs, enums = set(), set()
+
+    def visit_type(t):
+        while hasattr(t, "of_type"):
+            t = t.of_type
+        if isinstance(t, G.GraphQLEnumType):
+            enums.add(t.name)
+        elif isinstance(t, G.GraphQLInputObjectType) and t.name not in inputs:
+            inputs.add(t.name)
+            for f in t.fields.values():
+                visit_type(f.type)
+    for n, t in schema.type_map.items():
+        if not n.startswith("__") and isinstance(t, (G.GraphQLObjectType, G.GraphQLInterfaceType)):
+            for f in t.fields.values():
+                for a in f.args.values():
+                    visit_type(a.type)
+    return inputs, enums
+
+
 def _closure(schema, doc):
     """(input types, enums) the operations need: variable types, transitively through input fields; enums also from results"""
     inputs, enums = set(), set()
@@ -144,6 +165,10 @@ def bounded_pruned_packages(tier, seed):
         sdl = textwrap.dedent(sdl)
         schema = G.build_schema(sdl)
         need_inputs, need_enums = _closure(schema, G.parse(query))
+        if opts.get("enable_custom_operations"):
+            # the custom operation builder can send any field with any of its arguments: their types are reachable too
+            ci, ce = _argument_closure(schema)
+            need_inputs, need_enums = need_inputs | ci, need_enums | ce
         all_inputs = {n for n, t in schema.type_map.items() if isinstance(t, G.GraphQLInputObjectType)}
         all_enums = {n for n, t in schema.type_map.items() if isinstance(t, G.GraphQLEnumType) and not n.startswith("__")}
         full = None
@@ -157,6 +182,9 @@ def bounded_pruned_packages(tier, seed):
                     g.module()                      # the package imports (all modules)
                     for m in ("client", "input_types", "enums"):
                         g.module(m)
+                    for m in ("custom_fields", "custom_queries", "custom_mutations"):
+                        if m + ".py" in g.files:
+                            g.module(m)
                     ins, ens = _classes(g.read("input_types.py")), _classes(g.read("enums.py"))
                     if inc_in and inc_en:
                         full = (ins, ens)
@@ -188,11 +216,18 @@ def bounded_pruned_packages(tier, seed):
                 finally:
                     if g is not None:
                         g.cleanup()
-                if bad:
-                    fails.append(dict(inputs=dict(scenario=f"{name}:include_all_inputs={inc_in},include_all_enums={inc_en}"), failed=bad, outcome=None))
+                for b in bad:      # one failure per clause: a known finding lists scenario and clause, a different clause is a new violation
+                    fails.append(dict(inputs=dict(scenario=f"{name}:include_all_inputs={inc_in},include_all_enums={inc_en}:{b.split(':')[0]}"), failed=[b], outcome=None))
     return dict(function="ariadne_codegen.client_generators.package:PackageGenerator.generate", name="bounded.pruned-packages",
                 kind="bounded stand-in (end-to-end, native)",
                 domain=f"{len(SCENARIOS)} schemas/operation sets (nested inputs, list-of-lists fields, enum only as variable of the last operation, no input "
                        "variable at all, custom scalar only in a nested input, diamond + repeated type + cycle) x 4 flag combinations; closure computed "
                        "independently with graphql-core; package imported; retained definitions compared with the unpruned package",
                 cases=cases, failed=len(fails), failures=fails)
+
+
+def witness_custom_operations():
+    """known finding F37: custom operations + pruning; reports the failing (scenario, clause) cases"""
+    r = bounded_pruned_packages("quick", 0)
+    cases = [f["inputs"]["scenario"] for f in r["failures"] if f["inputs"]["scenario"].startswith("custom-operations-enabled-next-to-operations:")]
+    return dict(inputs={"scenario": "custom-operations-enabled-next-to-operations"}, failed=cases, cases=cases, outcome={}, error=None)
